@@ -127,7 +127,17 @@ func runC06(w *World) {
 	// starts with a true prefix that reaches some 20 KB past it, and the leader acknowledges
 	// another 40 KB before the follower connects.
 	var forcedPrefix []byte
+	// (A second flavour, another run in eight: the follower shares exactly that first window with
+	// the leader and then holds 15 commands of its own, each as long as the leader's command at
+	// the same place - a node that was on its own for a while. Whatever it keeps of its own tail
+	// while resynchronizing is neither verified nor the leader's.)
+	boundaryKind := 0
 	if w.knob("boundary", 8) == 1 {
+		boundaryKind = 1
+	} else if w.knob("boundarydiv", 7) == 1 { // (a knob of its own: recorded runs keep their meaning)
+		boundaryKind = 2
+	}
+	if boundaryKind != 0 {
 		for _, a := range clients {
 			a.paused = true
 		}
@@ -182,6 +192,13 @@ func runC06(w *World) {
 					forcedPrefix = b
 					initial = 1
 					w.stat("probe.follower_prefix_with_command_end_on_window_boundary", 1)
+					if boundaryKind == 2 {
+						forcedPrefix = append([]byte(nil), b[:checksumsz]...)
+						for i := 0; i < 15; i++ {
+							forcedPrefix = append(forcedPrefix, encodeCmd([]string{"SET", "kfill", fmt.Sprintf("x%04d", i), "STRING", strings.Repeat("d", 1500)})...)
+						}
+						w.stat("probe.follower_own_tail_starts_on_window_boundary", 1)
+					}
 				}
 			}
 		}
